@@ -129,6 +129,27 @@ def cleanup (e : HExn) (obj : Obj) (trace : List Ev) (dials : Nat) : Out :=
   | some i => ⟨.error e, { obj with sock := none }, trace ++ [.close i], dials⟩
   | none => ⟨.error e, obj, trace, dials⟩
 
+/-- `url = self.handshake_response.headers["location"]` (F8: KeyError on the pinned code; the
+    repaired code uses `.get` and raises WebSocketException on a missing / empty value) followed, in
+    the repaired code, by `try: parse_url(url) except ValueError: raise WebSocketException`. -/
+def redirectTarget (env : Env) (r : HsResp) : Except HExn Str :=
+  let loc : Except HExn Str :=
+    if Gen.h2LocationGuard then
+      match dictGetTruthy r.headers "location".toList with
+      | some l => .ok l
+      | none => .error .wsgeneric
+    else match dictGet r.headers "location".toList with
+      | some l => .ok l
+      | none => .error (.internal "KeyError")
+  match loc with
+  | .error e => .error e
+  | .ok url =>
+    if Gen.h2LocationParseGuard then
+      match env.parseUrl url with
+      | .error .valueError => .error .wsgeneric
+      | _ => .ok url
+    else .ok url
+
 /-- `for _ in range(limit)` with the body of the redirect loop.
     `n` = iterations left, `i` = number of `_http.connect` calls so far, `cur` = `self.sock`. -/
 def redirectLoop (env : Env) (world : Nat → Dial) (o : Opts) :
@@ -140,16 +161,7 @@ def redirectLoop (env : Env) (world : Nat → Dial) (o : Opts) :
     else ⟨.ok (), { obj with connected := true }, tr, i⟩
   | n + 1, i, cur, r, obj, tr =>
     if statusIn (some r.status) Gen.redirectStatuses then
-      -- url = self.handshake_response.headers["location"]
-      let loc : Except HExn Str :=
-        if Gen.h2LocationGuard then
-          match dictGetTruthy r.headers "location".toList with
-          | some l => .ok l
-          | none => .error .wsgeneric
-        else match dictGet r.headers "location".toList with
-          | some l => .ok l
-          | none => .error (.internal "KeyError")
-      match loc with
+      match redirectTarget env r with
       | .error e => cleanup e obj tr i
       | .ok url =>
         let tr1 := tr ++ [.close cur]                       -- self.sock.close()
